@@ -1142,7 +1142,28 @@ def run(ctx: Ctx) -> Result:
         async_tie(ctx, res)
     if ctx.replay is None or (isinstance(rp, dict) and rp.get('async')):
         async_handler_cases(ctx, res)
+    if ctx.replay is None or (isinstance(rp, dict) and rp.get('feeders')):
+        feeders_last_slot(res)
     return res
+
+
+def feeders_last_slot(res: Result):
+    """two feeder threads and ONE free slot of a bounded receiver (the scenario and its rig are C08's
+    `receiver-last-slot-race`): every datum `add_data` accepted must reach the decider — if the look at the free slot and
+    the insertion are not one step, the loser waits for room inside the receiver's lock and everything accepted so far is
+    stranded (the engine cannot get at the queue any more)."""
+    from harness.props import c08
+    rec = c08.Recorder()
+    payloads = c08.make_payloads(rec)
+    for r in c08.full_queue_liveness(payloads, only='receiver-last-slot-race'):
+        res.add_case({'feeders': r['scenario']}, nontrivial=True)
+        res.count('feeders_last_slot_' + r['result'])
+        if r['result'] != 'completed':
+            res.violations.append(Violation(
+                'accepted-data-stranded',
+                f"two feeders, one free slot of a bounded receiver: after 3 s threads {r['alive']} are still blocked "
+                f"(waiting for locks: {r['blocked_on_lock']}): the data accepted by add_data never reach the decider",
+                {'feeders': True, 'scenario': r['scenario']}))
 
 
 def async_handler_cases(ctx: Ctx, res: Result):
